@@ -67,15 +67,28 @@ EDITS = {
    "fnmatch.fnmatch(lookup_array[idx].lower(), lookup_value.lower()):",
    "fnmatch.fnmatch(lookup_array[idx].lower(), pattern):"),
  'r19_criteria_pairs_helper': ('C11', 'hotxlfp/formulas/statistical.py',
-   "@dispatcher.register_for('MAXIFS')\ndef MAXIFS(sum_args, *criteria):\n    if len(criteria) % 2 != 0:\n        return error.ERROR\n    range_and_preds = list(zip(criteria[::2], (utils.parse_criteria(criterion) for criterion in criteria[1::2])))\n",
-   "def _criteria_pairs(criteria):\n    return [(criteria[i], utils.parse_criteria(criteria[i + 1])) for i in range(0, len(criteria), 2)]\n\n\n@dispatcher.register_for('MAXIFS')\ndef MAXIFS(sum_args, *criteria):\n    if len(criteria) % 2 != 0:\n        return error.ERROR\n    range_and_preds = _criteria_pairs(criteria)\n"),
+   "        return error.VALUE  # not an array: never walk an arbitrary (possibly never-ending) iterable\n    range_and_preds = list(zip(criteria[::2], (utils.parse_criteria(criterion) for criterion in criteria[1::2])))\n    b = None\n",
+   "        return error.VALUE  # not an array: never walk an arbitrary (possibly never-ending) iterable\n    range_and_preds = _criteria_pairs(criteria)\n    b = None\n"),
+ 'r19b_criteria_pairs_helper_def': ('C11', 'hotxlfp/formulas/statistical.py',
+   "@dispatcher.register_for('MAXIFS')\n",
+   "def _criteria_pairs(criteria):\n    return [(criteria[i], utils.parse_criteria(criteria[i + 1])) for i in range(0, len(criteria), 2)]\n\n\n@dispatcher.register_for('MAXIFS')\n"),
  'r20_emit_list_copy': ('C20', 'hotxlfp/tinyemitter.py',
    "        listeners = self._e[name][:]\n",
    "        listeners = list(self._e[name])\n"),
+ 'r22_emit_keywords_passthrough': ('C20', 'hotxlfp/tinyemitter.py',
+   "    def emit(self, name, *args):\n        listeners = self._e[name][:]\n        for listener in listeners:\n            listener.fn(*args, **listener.ctx)\n        return self\n",
+   "    def emit(self, name, *args, **kwargs):\n        listeners = self._e[name][:]\n        for listener in listeners:\n            keywords = dict(kwargs)\n            keywords.update(listener.ctx)\n            listener.fn(*args, **keywords)\n        return self\n"),
+ 'r27_not_found_sentinel_attribute': ('C10', 'hotxlfp/parser.py',
+   "        not_found = lambda : 0\n        value = self.variables.get(name, not_found)\n",
+   "        not_found = self._not_found\n        value = self.variables.get(name, not_found)\n"),
+ 'r27b_not_found_sentinel_attribute_init': ('C10', 'hotxlfp/parser.py',
+   "        self.debug = debug\n",
+   "        self.debug = debug\n        self._not_found = object()  # marks a variable nobody supplied\n"),
 }
 
 # edits applied together with another one (same refactoring, two hunks)
-GROUPS = {'r15_parse_extract_method': ['r15b_parse_extract_method_helper'], 'r18_match_hoisted_lower': ['r18b_match_hoisted_lower_use']}
+GROUPS = {'r15_parse_extract_method': ['r15b_parse_extract_method_helper'], 'r18_match_hoisted_lower': ['r18b_match_hoisted_lower_use'],
+          'r27_not_found_sentinel_attribute': ['r27b_not_found_sentinel_attribute_init'], 'r19_criteria_pairs_helper': ['r19b_criteria_pairs_helper_def']}
 
 
 def main():
